@@ -264,6 +264,67 @@ let m_sjis (f : Stdlib.String.t list) : Stdlib.String.t =
   | SjErr -> "ERR\n"
   | SjUnknown -> "UNMODELLED\n"
 
+(* incr: <hex> <chunks> <verbose>: the incremental API, call by call; same lines as pvh *)
+let m_incr (f : Stdlib.String.t list) : Stdlib.String.t =
+  let data = bytes_of_hex (Stdlib.List.nth f 0) in
+  let verbose = (try Stdlib.List.nth f 2 = "1" with _ -> false) in
+  let total = Stdlib.List.length data in
+  let consumed rest = total - Stdlib.List.length rest in
+  let out = Buffer.create 4096 in
+  let fin () = Buffer.contents out in
+  (match api_parse_header data with
+   | Ok (raw_len, bs) ->
+     let raw_len = int_of_n raw_len in
+     Buffer.add_string out (Printf.sprintf "header=OK raw_len=%d consumed=%d\n" raw_len (consumed bs));
+     (match api_parse_start bs with
+      | Ok (st, bs) ->
+        let nframes (s : pstate) = Stdlib.List.length s.ps_frames.f_ids in
+        Buffer.add_string out (Printf.sprintf "start=OK br=%d consumed=%d len=%d\n" (int_of_n st.ps_bytes_read) (consumed bs) (nframes st));
+        let rec loop n (s : pstate) bs =
+          if raw_len = 0 || int_of_n s.ps_bytes_read < raw_len then
+            (match api_parse_event s bs with
+             | Ok ((code, s'), bs') ->
+               Buffer.add_string out (Printf.sprintf "ev[%d]=%d br=%d consumed=%d len=%d\n" n (int_of_n code)
+                                        (int_of_n s'.ps_bytes_read) (consumed bs') (nframes s'));
+               if verbose then begin
+                 let d = Buffer.create 1024 in
+                 dump_frames d (api_state_version s') s'.ps_frames;
+                 Stdlib.List.iter (fun l -> if l <> "" then Buffer.add_string out (Printf.sprintf "  s[%d] %s\n" n l))
+                   (Stdlib.String.split_on_char '\n' (Buffer.contents d))
+               end;
+               if int_of_n code = 0x39 then Some (s', bs') else loop (n + 1) s' bs'
+             | r -> Buffer.add_string out (Printf.sprintf "ev[%d]=%s\n" n (outcome_head r)); None)
+          else Some (s, bs) in
+        (match loop 0 st bs with
+         | None -> ()
+         | Some (s, bs) ->
+           let br = int_of_n s.ps_bytes_read in
+           let tail_ok, bs =
+             if br < raw_len then
+               (match (if raw_len - br > Stdlib.List.length bs then Err EIo else api_rd_exact (nat_of_int (raw_len - br)) bs) with
+                | Ok (_, bs') -> true, bs'
+                | _ -> Buffer.add_string out "tail=ERR\n"; false, bs)
+             else true, bs in
+           if tail_ok then
+             (match bs with
+              | [] -> Buffer.add_string out "tail=ERR\n"
+              | b :: bs' ->
+                let cont (s : pstate) =
+                  Buffer.add_string out "final\n";
+                  dump_start_end out s.ps_start s.ps_end;
+                  dump_meta out s.ps_meta s.ps_gecko;
+                  dump_frames out (api_state_version s) s.ps_frames in
+                if int_of_byte b = 0x55 then
+                  (match api_parse_metadata s bs' with
+                   | Ok (s', bs'') -> Buffer.add_string out (Printf.sprintf "metadata=OK consumed=%d\n" (consumed bs'')); cont s'
+                   | r -> Buffer.add_string out (Printf.sprintf "metadata=%s\n" (outcome_head r)))
+                else begin
+                  Buffer.add_string out (Printf.sprintf "metadata=absent byte=%d\n" (int_of_byte b)); cont s
+                end))
+      | r -> Buffer.add_string out (Printf.sprintf "start=%s\n" (outcome_head r)))
+   | r -> Buffer.add_string out (Printf.sprintf "header=%s\n" (outcome_head r)));
+  fin ()
+
 let dispatch (mode : Stdlib.String.t) (f : Stdlib.String.t list) : Stdlib.String.t =
   match mode with
   | "read" -> m_read f
@@ -272,4 +333,5 @@ let dispatch (mode : Stdlib.String.t) (f : Stdlib.String.t list) : Stdlib.String
   | "rollbacks" -> m_rollbacks f
   | "norm" -> m_norm f
   | "sjis" -> m_sjis f
+  | "incr" -> m_incr f
   | _ -> failwith ("unknown mode " ^ mode)
